@@ -517,6 +517,18 @@ def gen_plan(prop, r, tier, run):
     plan = {'C04': gen_c04, 'C10': gen_c10, 'C15': gen_c15}[prop](r, tier)
     for i, op in enumerate(plan['ops']):
         op['i'] = i
+        if prop in ('C04', 'C15') and op['op'] in (
+                'assert_textfile', 'assert_textfiles') and r.chance(0.15):
+            # the caller names an encoding for this one comparison (used
+            # only where everything compared is ASCII, so that the outcome
+            # is the same under any encoding)
+            op['encoding_arg'] = 'iso-8859-1'
+        if prop in ('C04', 'C15') and op['op'] in (
+                'assert_textfile', 'assert_binary', 'assert_df_file') \
+                and r.chance(0.08):
+            # the actual file named relative to the current directory, in a
+            # process whose $PWD is stale (os.chdir does not update it)
+            op['actual_relative'] = True
     return plan
 
 
@@ -986,6 +998,31 @@ def call_assert(ctx, op, rpaths, apaths):
         from sim.defaultenc import DefaultEncoding
         denc = DefaultEncoding(ctx.plan_config['default_encoding'],
                                ctx.stats['faults'])
+    if op.get('encoding_arg'):
+        blobs = []
+        for pth in list(apaths or []) + list(rpaths or []):
+            try:
+                with io.open(pth, 'rb') as fh:
+                    blobs.append(fh.read())
+            except (IOError, OSError):
+                blobs.append(b'\xff')
+        if op['op'] == 'assert_string':
+            blobs.append(op['actual'].encode('utf-8'))
+        if all(all(c < 128 for c in b) for b in blobs):
+            if op['op'] == 'assert_textfiles':
+                o['encodings'] = [op['encoding_arg']] * len(refs)
+            else:
+                o['encoding'] = op['encoding_arg']
+            ctx.stats['probes']['encoding_named_for_one_comparison'] += 1
+    saved_cwd = saved_pwd = None
+    if op.get('actual_relative') and apaths and os.path.isabs(apaths[0]) \
+            and os.path.isdir(os.path.dirname(apaths[0])):
+        saved_cwd = os.getcwd()
+        saved_pwd = os.environ.get('PWD')
+        os.environ['PWD'] = ctx.W.path('home')
+        os.chdir(os.path.dirname(apaths[0]))
+        apaths = [os.path.basename(apaths[0])] + list(apaths[1:])
+        ctx.stats['probes']['actual_named_relative_with_stale_PWD'] += 1
     try:
         if denc:
             denc.__enter__()
@@ -1014,6 +1051,12 @@ def call_assert(ctx, op, rpaths, apaths):
     finally:
         if denc:
             denc.__exit__(None, None, None)
+        if saved_cwd is not None:
+            os.chdir(saved_cwd)
+            if saved_pwd is None:
+                os.environ.pop('PWD', None)
+            else:
+                os.environ['PWD'] = saved_pwd
 
 
 def exc_tag(e):
